@@ -63,6 +63,15 @@ def _start_state_path(ctx, rep):
         rep.check(ok, "C01.s", "DFA.append_action_step", "step = non-consuming Else carrying the actions; joined like an error path (takes only what the state does not handle validly), ordinary afterwards",
                   "the action step changed: it must carry the actions on a fall-through Else, be culled like an error path when joined (else it conflicts with / shadows what the state continues with), "
                   "and lose the error mark afterwards (else the state counts as finished: immediate DONE, end() ignoring it)")
+    rep.rule("C01.u", "the finish actions of an expression that can match nothing are also performed on that path (a step behind its starting state)")
+    rc = model.func("RegexMatch.convert")
+    oku = model.has("RegexMatch.convert", "if self.finish_actions and out_dfa.starting_state in out_dfa.accepting_states:\n    out_dfa.append_action_step(self.finish_actions, [out_dfa.starting_state])")
+    body_u = strip_doc(rc.body)
+    i_build = next((i for i, st in enumerate(body_u) if "_create_dfa_state(" in ast.unparse(st)), None)
+    i_step = next((i for i, st in enumerate(body_u) if "append_action_step(" in ast.unparse(st)), None)
+    rep.check(oku and i_build is not None and i_step is not None and i_build < i_step, "C01.u", "RegexMatch.convert", "nullable expression: finish actions get a step behind the starting state",
+              "the finish actions of a regex sit on the transitions entering a finishing state; when the regex matches the empty string none is taken and nothing else performs them: "
+              "`\"a\"; /c*/; x = 3; \"!\";` leaves x at 0 on \"a!\"", line=rc.lineno)
     rep.rule("C01.t", "chain actions that may send the machine elsewhere are not copied onto the consuming transitions of the following statement: they get a step in front of it")
     aa = model.func("DFA.append_after")
     body = strip_doc(aa.body)
